@@ -160,7 +160,8 @@ def fragReplacement(fragment: Fragment,  rdef: replacements.Def) -> List[Fragmen
     if fragment.done:
         return [fragment]
     match = rdef.match.search(fragment.text)
-    if match is None:
+    if match is None or match.end() == match.start():
+        # No match, or an empty match which would never consume the text.
         return [fragment]
     # Arrive here if we have a matched replacement.
     # The replacement splits the input fragment into 3 output fragments:
